@@ -8,6 +8,7 @@ package c06
 
 import (
 	"encoding/binary"
+	"strings"
 
 	"verif/h/internal/core"
 	"verif/shim/goshim"
@@ -21,7 +22,7 @@ func init() {
 		Rule: "even cases: chain of 5-10 blocks on a real node (+ a validator replica checking every block) with plain/token transfers, EVM creations and calls (value-carrying, reverting, out-of-gas, invalid, SELFDESTRUCT to others and to itself, ISSUE), A->U, U->U, U->A with ring size 1 and >1 through the real mempool; " +
 			"after every block: sum over ALL accounts of the state trie (+ hidden pool for LKC) per asset conserved except self-destruct-to-self and ISSUE, collector credit == gas charged, hidden pool == account side, every balance == reference ledger. " +
 			"odd cases: valid confidential transactions tampered as the spender could (re-proved, re-signed) must be rejected by mempool admission AND by CheckBlock of a validator replica for a hand-built block; the untampered twin must be accepted at both. " +
-			"non-trivial = chain with >=1 block carrying a confidential and a contract transaction / tamper case with >=1 accepted control and >=10 tampered variants; distinct by hash of the block hashes / variant list",
+			"non-trivial = chain with >=1 block carrying both a confidential and a contract transaction / tamper case with >=1 accepted control and >=10 tampered variants; distinct by hash of the block hashes / of the variant list",
 		Assumptions: []string{
 			"libxcrypto is replaced by the stand-in of DESIGN.md §2: real algebra (Pedersen commitments over ed25519, binding 2-row MLSAG, CryptoNote ring signature) and a sound 64-bit range check, but not bit-compatible with Monero's bulletproofs (the proof reveals amount and mask to the verifier)",
 			"value flows of contract calls are predicted from purpose-built EVM contracts; gasUsed and status are taken from the receipts (not modelled)",
@@ -35,12 +36,42 @@ func init() {
 		},
 		Run:    run,
 		Floors: floors,
+		Extra:  extra,
 		Init:   core.QuietLogs,
 	})
 }
 
+// floors: about half of the minimum measured at seeds 1..5 of the quick tier (96 cases); the thorough
+// tier runs 33 times as many cases.
 func floors(tier string) map[string]int64 {
-	return map[string]int64{}
+	f := map[string]int64{
+		"blocks": 170, "txs_committed": 1300, "txs_failed_status": 130, "conservation_checks": 550,
+		"balance_comparisons": 6000, "account_leaves_read": 6000, "blocks_with_confidential_and_contract_txs": 140,
+		"uin_ring1": 90, "uin_ring_gt1": 150, "uin_a": 120, "uin_u": 125,
+		"contracts_selfdestructed": 39, "selfdestruct_to_self_destroyed_assets": 35, "issue_events": 7,
+		"tampered": 1800, "tampered_ring1": 680, "tampered_ringN": 660, "tampered_account_to_confidential": 380,
+		"tampered_rejected_block": 1750, "tampered_rejected_mempool": 1750,
+		"controls_accepted_block": 200, "controls_accepted_mempool": 100,
+	}
+	if tier == "thorough" {
+		for k := range f {
+			f[k] *= 30
+		}
+	}
+	return f
+}
+
+func extra(tier string, counters map[string]int64) map[string]interface{} {
+	classes := 0
+	for k := range counters {
+		if strings.HasPrefix(k, "class:") {
+			classes++
+		}
+	}
+	return map[string]interface{}{
+		"tamper_classes_exercised": classes,
+		"account_enumeration":      "every leaf of the committed account trie (state.Database().OpenTrie(root) + trie.NewIterator); addresses resolved by the trie's preimage store or, where the node kept no preimage, by the generator's set of known addresses (accounts_unknown_to_generator counts leaves nobody could name)",
+	}
 }
 
 func run(c *core.Ctx) {
